@@ -412,10 +412,48 @@ func (fr *Frame) callBySpecCommon(fn *ssa.Function, sp *FuncSpec, sig *types.Sig
 			}
 		}
 		sort.Strings(names)
+		hid := ""
+		if !reach["*"] {
+			havocCtr++
+			hid = fmt.Sprintf("havoc$%d", havocCtr)
+			var ptypes []types.Type
+			if fn != nil {
+				for _, p := range fn.Params {
+					ptypes = append(ptypes, p.Type())
+				}
+			}
+			havocReach[hid] = heapReachStructs(ptypes)
+			var das []directArg
+			for i, a := range args {
+				if i < len(ptypes) {
+					if pt, ok := ptypes[i].Underlying().(*types.Pointer); ok {
+						if _, isS := pt.Elem().Underlying().(*types.Struct); isS {
+							das = append(das, directArg{a, typeKey(pt.Elem())})
+							continue
+						}
+					}
+					// non-struct-pointer arguments: treat their reach as heap reach
+					seen2 := map[string]bool{}
+					tmp := map[string]bool{}
+					typeReach(ptypes[i], tmp, seen2)
+					for k := range reachStructs(seen2) {
+						havocReach[hid][k] = true
+					}
+				}
+			}
+			havocArgs[hid] = das
+		}
 		for _, n := range names {
 			srt := memArrays[n]
 			old := pre.get(n, srt)
-			nv := Fresh(n+"$any", srt)
+			var nv *Term
+			if hid != "" && strings.HasPrefix(n, "M$") {
+				// uninterpreted function of the old array: cells of objects whose type the callee cannot reach keep their value (see Select)
+				declFun(hid+"$"+n, fmt.Sprintf("(declare-fun %s (%s) %s)", quoteSym(hid+"$"+n), srt.S, srt.S))
+				nv = AppN("havoc", hid+"$"+n, srt, old)
+			} else {
+				nv = Fresh(n+"$any", srt)
+			}
 			for _, l := range keep {
 				if l.arr == n {
 					nv = Store(nv, l.addr, Select(old, l.addr))
@@ -917,4 +955,190 @@ func refInside(a, x *Term) bool {
 		}
 		return false
 	}
+}
+
+var havocCtr int
+var havocReach = map[string]map[string]bool{}
+
+// reachStructs: keys of struct types whose cells a callee with the visited
+// parameter types may reach: pointees of reachable pointers, elements of
+// reachable slices, and everything nested by value in them.
+func reachStructs(seen map[string]bool) map[string]bool {
+	out := map[string]bool{}
+	var lay func(T types.Type)
+	lay = func(T types.Type) {
+		switch u := T.Underlying().(type) {
+		case *types.Struct:
+			out[typeKey(T)] = true
+			for i := 0; i < u.NumFields(); i++ {
+				lay(u.Field(i).Type())
+			}
+		case *types.Array:
+			lay(u.Elem())
+		}
+	}
+	for k := range seen {
+		T := keyToType[k]
+		if T == nil {
+			continue
+		}
+		switch u := T.Underlying().(type) {
+		case *types.Pointer:
+			lay(u.Elem())
+			if _, isS := u.Elem().Underlying().(*types.Struct); !isS {
+				out["*"+typeKey(u.Elem())] = true // pointer to a scalar cell of this type
+			}
+		case *types.Slice:
+			lay(u.Elem())
+		case *types.Struct, *types.Array:
+			lay(T)
+		}
+	}
+	return out
+}
+
+// pathStructKeys: the struct types an address lies in (innermost to outermost),
+// if the address is syntactically a field path; nil if unknown.
+func pathStructKeys(addr *Term) []string {
+	if addr.Op != "mkref" {
+		return nil
+	}
+	p := addr.Args[1]
+	var keys []string
+	for p.Op == "pfld" || p.Op == "pelem" {
+		if p.Op == "pfld" {
+			if p.Name == "" || structByKey[p.Name] == nil {
+				return nil
+			}
+			keys = append(keys, p.Name)
+		} else {
+			return nil
+		}
+		p = p.Args[0]
+	}
+	if p.Op != "proot" && p.Op != "rpath" {
+		return nil
+	}
+	return keys
+}
+
+type directArg struct {
+	t   *Term
+	key string
+}
+
+var havocArgs = map[string][]directArg{}
+
+// heapReachStructs: struct types reachable from the parameters through at
+// least one pointer/slice/interface *stored in memory* (the pointees of the
+// arguments themselves are handled as direct arguments).
+func heapReachStructs(ptypes []types.Type) map[string]bool {
+	seen := map[string]bool{}
+	tmp := map[string]bool{}
+	var fields func(T types.Type)
+	fields = func(T types.Type) {
+		switch u := T.Underlying().(type) {
+		case *types.Struct:
+			for i := 0; i < u.NumFields(); i++ {
+				fields(u.Field(i).Type())
+			}
+		case *types.Array:
+			fields(u.Elem())
+		default:
+			typeReach(T, tmp, seen)
+		}
+	}
+	for _, pt := range ptypes {
+		if p, ok := pt.Underlying().(*types.Pointer); ok {
+			if _, isS := p.Elem().Underlying().(*types.Struct); isS {
+				fields(p.Elem())
+				continue
+			}
+		}
+		typeReach(pt, tmp, seen)
+	}
+	out := reachStructs(seen)
+	if tmp["*"] {
+		out["*"] = true
+	}
+	return out
+}
+
+func layoutContains(outer, inner string) bool {
+	T := keyToType[outer]
+	if T == nil {
+		return true
+	}
+	found := false
+	var lay func(T types.Type)
+	lay = func(T types.Type) {
+		if typeKey(T) == inner {
+			found = true
+		}
+		switch u := T.Underlying().(type) {
+		case *types.Struct:
+			for i := 0; i < u.NumFields(); i++ {
+				lay(u.Field(i).Type())
+			}
+		case *types.Array:
+			lay(u.Elem())
+		}
+	}
+	lay(T)
+	return found
+}
+
+// cellOutsideArg: the cell at addr is certainly not inside the object the direct argument points to.
+func cellOutsideArg(addr *Term, keys []string, da directArg) bool {
+	if refInside(addr, da.t) {
+		return false
+	}
+	outerA := keys[len(keys)-1]
+	outerT := da.key
+	if ak := pathStructKeys(da.t); len(ak) > 0 {
+		outerT = ak[len(ak)-1]
+	}
+	if outerA != outerT {
+		return !layoutContains(outerA, outerT) && !layoutContains(outerT, outerA)
+	}
+	// same outermost type: disjoint if the same root object and the field paths diverge
+	ra, pa := splitRoot(addr)
+	rt, ptn := splitRoot(da.t)
+	if ra == nil || rt == nil || ra != rt {
+		return false
+	}
+	// pa, ptn are field index lists from the root; arg subtree = prefix ptn
+	for i := 0; i < len(ptn); i++ {
+		if i >= len(pa) {
+			return false
+		}
+		if pa[i] != ptn[i] {
+			return true
+		}
+	}
+	return false
+}
+
+// splitRoot: root term and field index path (outermost first) of a syntactic field address.
+func splitRoot(a *Term) (*Term, []int64) {
+	if a.Op != "mkref" {
+		return nil, nil
+	}
+	var idx []int64
+	p := a.Args[1]
+	for p.Op == "pfld" {
+		k, ok := p.Args[1].IntVal()
+		if !ok {
+			return nil, nil
+		}
+		idx = append([]int64{k}, idx...)
+		p = p.Args[0]
+	}
+	if p.Op == "proot" {
+		return a.Args[0], idx
+	}
+	if p.Op == "rpath" {
+		return p.Args[0], idx
+	}
+	return nil, nil
 }
